@@ -21,18 +21,18 @@ impl NameMatcher {
 }
 
 impl Matcher for NameMatcher {
-    fn matches(&self, file_info: &WalkEntry, _: &mut MatcherIO) -> bool {
+    fn matches(&self, file_info: &WalkEntry, matcher_io: &mut MatcherIO) -> bool {
         let name = file_info.file_name().to_string_lossy();
 
         #[cfg(unix)]
         if name.len() > 1 && name.chars().all(|x| x == '/') {
-            self.pattern.matches("/")
+            self.pattern.matches_or_report("/", matcher_io)
         } else {
-            self.pattern.matches(&name)
+            self.pattern.matches_or_report(&name, matcher_io)
         }
 
         #[cfg(windows)]
-        self.pattern.matches(&name)
+        self.pattern.matches_or_report(&name, matcher_io)
     }
 }
 
